@@ -137,14 +137,16 @@ var matrices = [][6]float64{
 	{0.001, 0, 0, 0, 0, 0},
 	{0.0004, 0, 0, 0.002, 0, 0},
 	{0.001, 0, 0, 0.001, 0.1, -0.05},
+	{0, 0, 0, 0, 0, 0}, // the unset matrix of a hand-built font: everything scales to 0
 	// thorough only from here
+	{0, 0, 0, 0.001, 0, 0},
 	{1, 0, 0, 1, 0, 0},
 	{1.0 / 2048, 0, 0, 1.0 / 2048, 0, 0},
-	{0, 0, 0, 0.001, 0, 0},
 	{-0.001, 0, 0, 0, 0.05, 0.05},
+	{0, 0, 0, 0, 0.25, -0.5},
 }
 
-const quickMatrices = 6
+const quickMatrices = 7
 
 // ---------------------------------------------------------------- encodings
 
@@ -306,9 +308,9 @@ func checkFont(c *mc.Ctx, fc fontCase) mc.Verdict {
 
 	// queries are observations: the font is what it was before, and what they
 	// return belongs to the caller (overwriting it changes no later answer)
-	// (the deep comparison of the whole value is made for one case in eight, chosen
+	// (the deep comparison of the whole value is made for one case in sixteen, chosen
 	// by a pure function of the case, and so are the result-ownership checks)
-	deep := (fc.mask+fc.widthRot+fc.outline[0]+fc.outline[1]+fc.outline[2]+fc.outline[3]+fc.outline[4]+len(fc.encDesc))%8 == 0
+	deep := (fc.mask+fc.widthRot+fc.outline[0]+fc.outline[1]+fc.outline[2]+fc.outline[3]+fc.outline[4]+len(fc.encDesc))%16 == 0
 	fontBefore := ""
 	if deep {
 		fontBefore = observe.Dump(f)
@@ -529,7 +531,7 @@ func checkMetrics(c *mc.Ctx, ac afmCase) mc.Verdict {
 	add := func(key, format string, a ...any) {
 		fs = append(fs, finding{"C19:" + key, fmt.Sprintf(format, a...)})
 	}
-	deepM := (ac.mask+ac.widthRot+ac.box[0]+ac.box[1]+ac.box[2]+ac.box[3]+ac.box[4]+len(ac.encDesc))%8 == 0
+	deepM := (ac.mask+ac.widthRot+ac.box[0]+ac.box[1]+ac.box[2]+ac.box[3]+ac.box[4]+len(ac.encDesc))%16 == 0
 	metricsBefore := ""
 	if deepM {
 		metricsBefore = observe.Dump(m)
@@ -648,7 +650,7 @@ func rectBody(rects [][4]int) func(c *mc.Ctx, item int) mc.Verdict {
 func families(tier string) []mc.Family {
 	// budgets per family: they sum to 45 s (quick) / 9.5 min (thorough)
 	nOut, nMat, nRot := quickOutlines, quickMatrices, 2
-	budgets := []time.Duration{4 * time.Second, 28 * time.Second, 4 * time.Second, 7 * time.Second, 2 * time.Second}
+	budgets := []time.Duration{6 * time.Second, 45 * time.Second, 6 * time.Second, 10 * time.Second, 3 * time.Second}
 	if tier == "thorough" {
 		nOut, nMat, nRot = len(outlines), len(matrices), 1
 		budgets = []time.Duration{20 * time.Second, 480 * time.Second, 20 * time.Second, 40 * time.Second, 10 * time.Second}
@@ -705,8 +707,8 @@ func families(tier string) []mc.Family {
 		},
 		{
 			Name: "type1/outlines-matrices", Items: 32 * nMat * nKinds * nRot, Body: fontGeom, Budget: budgets[1],
-			Rule: fmt.Sprintf("item = glyph set (32) x font matrix (%d axis-aligned: standard, negative a, negative d, d = 0, non-uniform, with translation%s) x encoding kind (nil, all .notdef, partial, naming missing glyphs, two codes -> one glyph) x %d width assignment(s); every present glyph takes every outline of a family of %d (empty, move only, lines, curves with control points outside the end-point box, several contours, closepath, points at the origin, point cancelled by the translation%s) by Choose; all query methods for all 6 names; non-trivial as above",
-				nMat, map[bool]string{true: ", identity, 1/2048, a = 0, negative with d = 0 and translation", false: ""}[tier == "thorough"], nRot, nOut, map[bool]string{true: ", closepath only, single point, fractional, curve without moveto, line through the origin", false: ""}[tier == "thorough"]),
+			Rule: fmt.Sprintf("item = glyph set (32) x font matrix (%d axis-aligned: standard, negative a, negative d, d = 0, non-uniform, with translation, all zero (unset)%s) x encoding kind (nil, all .notdef, partial, naming missing glyphs, two codes -> one glyph) x %d width assignment(s); every present glyph takes every outline of a family of %d (empty, move only, lines, curves with control points outside the end-point box, several contours, closepath, points at the origin, point cancelled by the translation%s) by Choose; all query methods for all 6 names; non-trivial as above",
+				nMat, map[bool]string{true: ", a = 0, identity, 1/2048, negative with d = 0 and translation, translation only", false: ""}[tier == "thorough"], nRot, nOut, map[bool]string{true: ", closepath only, single point, fractional, curve without moveto, line through the origin", false: ""}[tier == "thorough"]),
 			Describe: descFont, CrashKey: func(int) string { return "C19:crash:type1/outlines-matrices" },
 		},
 		{
